@@ -27,7 +27,7 @@ LEAN_MODULES = ["PorepyVerif.C41.Props"]
 LEAN_DIRS = ["C46"]
 AUDIT = "PorepyVerif/C41/Audit.lean"
 DRIVER = "PorepyVerif/C41/Driver.lean"
-N = {"quick": 600, "thorough": 12000}
+N = {"quick": 400, "thorough": 12000}
 RULE = ("a case = one box (d = 1..4 parameters, dyadic low, dyadic mesh size h, 2..6 points per axis), one function with 1..3 "
         "components, each a random integer coefficient tensor over all 2^d monomials (sometimes affine only, sometimes with extra "
         "non-multilinear monomials x_i^2 … so that the table is NOT exact and the model is compared on general functions), and 2..6 "
